@@ -6,6 +6,12 @@
 		__CPROVER_assume(g_free_calls < ((size_t) 1 << 40) && g_alloc_ok < ((size_t) 1 << 40) && g_alloc_fail < ((size_t) 1 << 40)); \
 		g_m0 = nondet_bool(); g_m1 = nondet_bool(); \
 		VP_HAVOC_PROTO(); VP_HAVOC_SYNC();    \
+		/* "last seen" pointer records start as NULL (only ever compared); queue heads are made real by VP_AIOQS_PRE; \
+		 * an unknown tail is NULL (see VP_AIOQ_OK) */ \
+		g_pipe_close_last = NULL; g_pipe_recv_pipe = NULL; g_pipe_recv_aio = NULL; g_pipe_send_pipe = NULL; \
+		g_pipe_send_aio = NULL; g_pipe_send_msg = NULL; g_fin_last = NULL; g_fin_last_msg = NULL; g_start_last = NULL; \
+		g_qa.head = NULL; g_qa.tail = NULL; g_qb.head = NULL; g_qb.tail = NULL; g_last_app = NULL; \
+		g_qa_addr = NULL; g_qb_addr = NULL; g_pollr_addr = NULL; g_pollw_addr = NULL; \
 	} while (0)
 
 /* ---- skeleton builders: real objects, real list code, everything else nondet ---- */
@@ -34,6 +40,7 @@ static void vp_mk_ctx(sub0_ctx *c)
 	c->node.ln_next = NULL;
 	c->node.ln_prev = NULL;
 	c->lmq.lmq_msgs = &c->lmq.lmq_buf[0]; /* inline buffer (lmq_alloc == 0); a heap array is attached by the contract otherwise */
+	c->recv_queue.ll_offset = VP_AIO_OFF; /* nni_aio_list_init */
 	real_list_init_offset(&c->topics, offsetof(sub0_topic, node));
 	real_list_append(&g_s->contexts, c);
 }
@@ -70,5 +77,4 @@ void h_sub0_matches(void) { uint8_t *body; size_t len; VP_HAVOC_GHOSTS(); vp_mk_
 #define SUB_NC 1
 #endif
 void h_sub0_recv_cb(void) { VP_HAVOC_GHOSTS(); vp_mk_sock(SUB_NC, nondet_size_t(), nondet_size_t()); sub0_recv_cb(g_pp); VP_CANARY(); }
-int g_dbg;
-void h_dbg(void) { VP_HAVOC_GHOSTS(); vp_mk_sock(1, nondet_size_t(), nondet_size_t()); sub0_ctx *c = nni_list_first(&g_pp->sub->contexts); if (VP_IS_AIOQ(&c->recv_queue)) g_dbg = 1; else g_dbg = 2; __CPROVER_assert(g_dbg == 1, "dbg"); }
+void h_sub0_ctx_recv(void) { nni_aio *aio; VP_HAVOC_GHOSTS(); vp_mk_sock(VPNC, 0, 0); sub0_ctx_recv((g_nc == 2 && nondet_bool()) ? (void *) g_c1 : (void *) &g_s->master, aio); VP_CANARY(); }
